@@ -67,9 +67,10 @@ if __name__ == '__main__':
         d0 = f'{ROOT}/seed-{prop}'
         for n in sorted(os.listdir(d0)):
             if os.path.exists(f'{d0}/{n}/patch.diff'):
-                seeds.append((prop, n))
+                if not os.environ.get('SEED_ONLY') or f'{prop}-{n}' in os.environ['SEED_ONLY'].split(','):
+                    seeds.append((prop, n))
     chunks = [(k, seeds[k::nw]) for k in range(nw)]
     with Pool(nw) as pool:
         allres = [r for rs in pool.map(work, chunks) for r in rs]
-    json.dump(sorted(allres, key=lambda r: r['seed']), open('/tmp/seedrun-results.json', 'w'), indent=1)
+    json.dump(sorted(allres, key=lambda r: r['seed']), open(os.environ.get('SEED_OUT', '/tmp/seedrun-results.json'), 'w'), indent=1)
     print('DONE', len(allres))
